@@ -150,7 +150,7 @@ class C10(IRCheck):
         k = 0
         for w in wops:
             for (w1, w2) in {(w, w), (max(1, w // 2), w), (w, max(1, w // 2)), (min(255, w + 1), w), (w, min(255, 2 * w)),
-                             (1, w), (w, 1)}:
+                             (1, w), (w, 1), (min(255, w + 1), min(255, w + 1)), (min(255, 2 * w), min(255, 2 * w))}:
                 for op in OPS + [0]:
                     if op == 5 and w > 64:
                         reps = 1 if tier == "quick" else 2
